@@ -40,11 +40,10 @@ func cmdAggValCases(args []string) {
 		g := &qgen{r: r, w: c.Window, o: o}
 		fn := r.Intn(len(aggValOps))
 		mod := ""
-		vectorized := (fn == 1 || fn == 2 || fn == 3 || fn == 5) && r.Intn(4) == 0
+		vectorized := fn <= 5 && r.Intn(4) == 0
 		if vectorized {
-			// no grouping labels: the engine's vectorized table (gonum floats.Max/Min, len, 1);
-			// for these four its result is the scalar accumulator's (sum and avg use a SIMD sum
-			// whose association depends on the slice's alignment and are left to the oracle)
+			// no grouping labels: the engine's vectorized table (gonum floats.Max/Min, len, 1, and since
+			// fix 7b93a09 a sum in the order of the samples): its result is the scalar accumulator's
 			mod = pick(r, []string{"", " by ()"})
 			stats["vectorized-table"]++
 		} else if r.Intn(2) == 0 {
